@@ -16,152 +16,42 @@
 (* modelled (estimator registers; compared bit-for-bit across types by the *)
 (* trace specification instead).                                          *)
 (***************************************************************************)
-EXTENDS Naturals, FiniteSets, Sequences, TLC
-CONSTANTS LgK, Full, Alphabet,
-          ListSize,     \* code: 1 << LG_INIT_LIST_SIZE = 8
-          SetMinLgK,    \* code: 8 (lgK < 8 promotes the list directly to HLL)
-          LgInitSet,    \* code: LG_INIT_SET_SIZE = 5
-          SetLgDelta,   \* code: 3 (the set is promoted when full at lg size lgK - 3)
-          AuxToken,     \* code: 15; negative configs use other values
-          ShiftBack     \* code: 14 = AuxToken - 1 (shifted value at which a former exception returns to the nibbles)
-VARIABLES mode, type, list, set, setLg, h,
+EXTENDS HllMech
+CONSTANTS LgK, Full, Alphabet     \* (the thresholds ListSize .. ShiftBack are constants of HllMech)
+VARIABLES d,             \* the design record [mode, type, list, set, setLg, h] of HllMech
           fed, gtop      \* ghosts: coupons offered, their per-slot maximum (the contract's fed/top)
-dvars == <<mode, type, list, set, setLg, h, fed, gtop>>
+dvars == <<d, fed, gtop>>
 
-LIST == 0
-SET == 1
-HLL == 2
-K == 2^LgK
-SlotsK == 0..(K - 1)
-SlotOf(c) == c[1] % K
+HLL == MHLL
+LIST == MLIST
+K == KOf(LgK)
+SlotsK == SlotsOf(LgK)
+SlotOf(c) == MSlot(c, LgK)
 Max2(a, b) == IF a >= b THEN a ELSE b
-
-\* vacuity guard: TLC registers 1..NCov record that a branch of the mechanism was exercised (POSTCONDITION Covered, -workers 1)
 NCov == 8
-Tag(n, v) == IF TLCSet(n, TRUE) THEN v ELSE v
 
-(* ---------------- HLL_4: h = [nib, curMin, nac, aux] -------------------- *)
-Empty4 == [nib |-> [s \in SlotsK |-> 0], curMin |-> 0, nac |-> K, aux |-> <<>>]
-Val4(x, s) == IF x.nib[s] = AuxToken THEN x.aux[s] ELSE x.nib[s] + x.curMin
-\* shiftToBiggerCurMin: one increment of curMin
-Shift1(x) ==
-  LET ncm == x.curMin + 1
-      dec == [s \in SlotsK |-> IF x.nib[s] < AuxToken THEN x.nib[s] - 1 ELSE x.nib[s]]   \* a stored 0 is an error (Nat underflow => TLC error)
-      back == {s \in DOMAIN x.aux : x.aux[s] - ncm < AuxToken}     \* former exceptions that fit again
-      nib2 == [s \in SlotsK |-> IF s \in back THEN x.aux[s] - ncm ELSE dec[s]]
-  IN  [nib |-> nib2, curMin |-> ncm,
-       nac |-> Cardinality({s \in SlotsK : x.nib[s] < AuxToken /\ dec[s] = 0}),
-       aux |-> [s \in (DOMAIN x.aux) \ back |-> x.aux[s]]]
-ShiftBackOK(x) == \A s \in DOMAIN x.aux : x.aux[s] - (x.curMin + 1) < AuxToken => x.aux[s] - (x.curMin + 1) = ShiftBack
-RECURSIVE ShiftLoop(_, _)
-ShiftLoop(x, n) == IF x.nac # 0 THEN x
-                   ELSE IF ~ShiftBackOK(x) THEN Assert(FALSE, "newShiftedVal != 14")   \* the code throws logic_error
-                   ELSE ShiftLoop(Tag(IF n > 0 THEN 6 ELSE 5, IF DOMAIN x.aux # {} THEN Tag(7, Shift1(x)) ELSE Shift1(x)), n + 1)
-\* internalHll4Update
-Upd4(x, s, v) ==
-  IF v <= x.curMin THEN x                                   \* quick rejection
-  ELSE LET raw == x.nib[s]
-           lb == raw + x.curMin
-       IN IF v <= lb THEN x
-          ELSE LET old == IF raw < AuxToken THEN lb ELSE x.aux[s]
-               IN IF v <= old THEN x
-                  ELSE LET sh == v - x.curMin
-                           y == IF raw = AuxToken
-                                THEN IF sh >= AuxToken THEN Tag(1, [x EXCEPT !.aux[s] = v])     \* case 1
-                                     ELSE x                                                       \* case 2 (impossible)
-                                ELSE IF sh >= AuxToken
-                                     THEN Tag(3, [x EXCEPT !.nib[s] = AuxToken, !.aux = (s :> v) @@ @])   \* case 3
-                                     ELSE Tag(4, [x EXCEPT !.nib[s] = sh])                        \* case 4
-                       IN IF old = x.curMin THEN ShiftLoop([y EXCEPT !.nac = @ - 1], 0) ELSE y
-
-(* ---------------- HLL_6: h = [bytes, nac], 6-bit values packed little-endian across byte boundaries ---------- *)
-Bytes6 == (K * 3) \div 4 + 1
-Empty6 == [bytes |-> [b \in 0..(Bytes6 - 1) |-> 0], nac |-> K]
-Get6(x, s) == LET start == 6 * s  sh == start % 8  ix == start \div 8
-                  two == x.bytes[ix + 1] * 256 + x.bytes[ix]
-              IN (two \div 2^sh) % 64
-Put6(x, s, v) == LET start == 6 * s  sh == start % 8  ix == start \div 8
-                     two == x.bytes[ix + 1] * 256 + x.bytes[ix]
-                     cleared == two - ((two \div 2^sh) % 64) * 2^sh
-                     ins == cleared + (v % 64) * 2^sh
-                 IN [x EXCEPT !.bytes[ix] = ins % 256, !.bytes[ix + 1] = (ins \div 256) % 256]
-Upd6(x, s, v) == LET cur == Get6(x, s) IN
-                 IF v > cur THEN [Put6(x, s, v) EXCEPT !.nac = IF cur = 0 THEN @ - 1 ELSE @] ELSE x
-(* ---------------- HLL_8: h = [reg, nac] ---------------- *)
-Empty8 == [reg |-> [s \in SlotsK |-> 0], nac |-> K]
-Upd8(x, s, v) == IF v > x.reg[s] THEN [x EXCEPT !.reg[s] = v, !.nac = IF x.reg[s] = 0 THEN @ - 1 ELSE @] ELSE x
-
-EmptyArr(t) == CASE t = 4 -> Empty4 [] t = 6 -> Empty6 [] OTHER -> Empty8
-UpdArr(t, x, c) == CASE t = 4 -> Upd4(x, SlotOf(c), c[2]) [] t = 6 -> Upd6(x, SlotOf(c), c[2]) [] OTHER -> Upd8(x, SlotOf(c), c[2])
-ValArr(t, x, s) == CASE t = 4 -> Val4(x, s) [] t = 6 -> Get6(x, s) [] OTHER -> x.reg[s]
-Regs == [s \in SlotsK |-> ValArr(type, h, s)]
-RECURSIVE Replay(_, _, _)
-Replay(t, x, cs) == IF cs = <<>> THEN x ELSE Replay(t, UpdArr(t, x, Head(cs)), Tail(cs))
-RECURSIVE SeqOfSet(_)
-SeqOfSet(S) == IF S = {} THEN <<>> ELSE LET c == CHOOSE c \in S : TRUE IN <<c>> \o SeqOfSet(S \ {c})
-\* conversion constructors: replay <<slot, value>> of the non-empty slots in slot order; Hll6/Hll8 set numAtCurMin to the zero count
-RECURSIVE NonEmptyFrom(_, _)
-NonEmptyFrom(r, s) == IF s = K THEN <<>> ELSE (IF r[s] > 0 THEN <<<<s, r[s]>>>> ELSE <<>>) \o NonEmptyFrom(r, s + 1)
-ConvertArr(t, r) == LET y == Replay(t, EmptyArr(t), NonEmptyFrom(r, 0)) IN
-                    IF t = 4 THEN y ELSE [y EXCEPT !.nac = Cardinality({s \in SlotsK : r[s] = 0})]
-
-NoArr == [none |-> 0]
-InitMode == IF Full THEN HLL ELSE LIST
-Init == /\ mode = InitMode /\ type \in {4, 6, 8} /\ list = <<>> /\ set = {} /\ setLg = 0
-        /\ h = IF Full THEN EmptyArr(type) ELSE NoArr
+Init == /\ \E t \in {4, 6, 8} : d = DInit(t, Full, LgK)
         /\ fed = {} /\ gtop = [s \in SlotsK |-> 0]
         /\ \A n \in 1..NCov : TLCSet(n, FALSE)
-
-\* promoteListOrSetToHll
-ToHll(cs) == /\ mode' = HLL /\ h' = Replay(type, EmptyArr(type), cs) /\ list' = <<>> /\ set' = {} /\ setLg' = 0
-\* CouponHashSet::couponUpdate on a (set, lg) pair; returns [set, lg, promote]
-SetIns(S, lg, c) ==
-  IF c \in S THEN [set |-> S, lg |-> lg, promote |-> FALSE]
-  ELSE LET S2 == S \cup {c} IN
-       IF 4 * Cardinality(S2) > 3 * 2^lg
-       THEN IF lg = LgK - SetLgDelta THEN [set |-> S2, lg |-> lg, promote |-> TRUE]
-            ELSE [set |-> S2, lg |-> lg + 1, promote |-> FALSE]
-       ELSE [set |-> S2, lg |-> lg, promote |-> FALSE]
-RECURSIVE ListToSet(_, _)
-ListToSet(r, cs) == IF cs = <<>> THEN r
-                    ELSE LET n == SetIns(r.set, r.lg, Head(cs)) IN
-                         IF n.promote THEN Assert(FALSE, "promotion while building the set") ELSE ListToSet(n, Tail(cs))
-
-Update(c) ==
-  /\ fed' = fed \cup {c} /\ gtop' = [gtop EXCEPT ![SlotOf(c)] = Max2(@, c[2])]
-  /\ UNCHANGED type
-  /\ CASE mode = LIST ->
-            IF \E n \in DOMAIN list : list[n] = c THEN UNCHANGED <<mode, list, set, setLg, h>>
-            ELSE LET l2 == Append(list, c) IN
-                 IF Len(l2) < ListSize THEN list' = l2 /\ UNCHANGED <<mode, set, setLg, h>>
-                 ELSE IF LgK < SetMinLgK THEN ToHll(l2)
-                 ELSE LET r == ListToSet([set |-> {}, lg |-> LgInitSet, promote |-> FALSE], l2) IN
-                      /\ mode' = SET /\ set' = r.set /\ setLg' = r.lg /\ list' = <<>> /\ UNCHANGED h
-       [] mode = SET ->
-            LET r == SetIns(set, setLg, c) IN
-            IF r.promote THEN ToHll(SeqOfSet(r.set))
-            ELSE set' = r.set /\ setLg' = r.lg /\ UNCHANGED <<mode, list, h>>
-       [] OTHER -> h' = UpdArr(type, h, c) /\ UNCHANGED <<mode, list, set, setLg>>
+Update(c) == /\ d' = DStep(d, LgK, c)
+             /\ fed' = fed \cup {c} /\ gtop' = [gtop EXCEPT ![SlotOf(c)] = Max2(@, c[2])]
 \* hll_sketch(const hll_sketch&, t), continuing with the copy
-Convert(t) ==
-  /\ type' = t
-  /\ IF mode = HLL /\ t # type THEN h' = ConvertArr(t, Regs) ELSE UNCHANGED h
-  /\ UNCHANGED <<mode, list, set, setLg, fed, gtop>>
-Reset == /\ mode' = InitMode /\ list' = <<>> /\ set' = {} /\ setLg' = 0
-         /\ h' = IF Full THEN EmptyArr(type) ELSE NoArr
-         /\ fed' = {} /\ gtop' = [s \in SlotsK |-> 0] /\ UNCHANGED type
+Convert(t) == d' = DConvert(d, LgK, t) /\ UNCHANGED <<fed, gtop>>
+Reset == d' = DReset(d, Full, LgK) /\ fed' = {} /\ gtop' = [s \in SlotsK |-> 0]
 Next == (\E c \in Alphabet : Update(c)) \/ (\E t \in {4, 6, 8} : Convert(t)) \/ Reset
 Spec == Init /\ [][Next]_dvars
 
-\* what is_empty() computes
-IsEmptyImpl == CASE mode = LIST -> list = <<>> [] mode = SET -> set = {}
-               [] OTHER -> (IF type = 4 THEN h.curMin = 0 ELSE TRUE) /\ h.nac = K
-Coupons == IF mode = LIST THEN {list[n] : n \in DOMAIN list} ELSE set
+mode == d.mode
+type == d.type
+h == d.h
+Regs == DRegs(d, LgK)
+IsEmptyImpl == DIsEmpty(d, LgK)
+Coupons == DCoupons(d)
 
 \* ---- refinement mapping and the properties checked ----
 CObj == [lgK |-> LgK, type |-> type, full |-> Full, mode |-> mode, fed |-> fed, top |-> gtop, empty |-> fed = {}, big |-> FALSE]
 C == INSTANCE Hll WITH obj <- (1 :> CObj), Ids <- {1}, LgKs <- {LgK}, Coupons <- Alphabet, Bigs <- {FALSE}, TrackFed <- TRUE
-ContentOK == IF mode = HLL THEN Regs = C!Content(CObj) ELSE Coupons = C!Content(CObj) /\ (mode = LIST => Len(list) = Cardinality(Coupons))
+ContentOK == IF mode = HLL THEN Regs = C!Content(CObj) ELSE Coupons = C!Content(CObj) /\ (mode = LIST => Len(d.list) = Cardinality(Coupons))
 EmptyOK == IsEmptyImpl = CObj.empty
 CInv == C!Inv
 \* representation invariants of the HLL_4 array (DESIGN C03)
